@@ -2,7 +2,7 @@
    `StripInput` of sylvia-derive/src/fold.rs translated from the source on every run (GenImpFold.fold_fns,
    Facts/FoldRefine.v). Statements only. *)
 From Coq Require Import String List Bool.
-Require Import SV.Model.Imp SV.Model.GenImpFold SV.Facts.ImpFacts SV.Facts.MacroRefine SV.Facts.FoldRefine SV.Facts.ParseRefine SV.Facts.ParseFacts.
+Require Import SV.Model.Imp SV.Model.GenImpFold SV.Facts.ImpFacts SV.Facts.MacroRefine SV.Facts.FoldRefine.
 Import ListNotations.
 Open Scope string_scope.
 Open Scope list_scope.
@@ -40,18 +40,6 @@ Theorem c13_translated_remove_input_attr : forall d (l : list param),
   calls FOLD (S d) "remove_input_attr" [VArr (map param_v l)] (CVal (VArr (map (fun p => param_v (bare p)) l))).
 Proof. exact translated_remove_input_attr. Qed.
 
-(* which attributes count as the framework's own - the translated `SylviaAttribute::new` (parser/attributes/mod.rs): exactly the
-   paths of two segments `sv::<name>` with <name> one of the ten known names; any other path (`doc`, `cfg`, `sv` alone,
-   `sv::unknown`, `a::sv::msg`, ..) is a foreign attribute and stays *)
-Theorem c13_translated_framework_attributes : forall d path meta,
-  calls PARSE (S (S d)) "SylviaAttribute::new" [path_attr_v path meta] (CVal (kopt (classify path))).
-Proof. exact translated_sv_new. Qed.
-
-Theorem c13_translated_framework_attribute_names : forall path,
-  classify path <> None <->
-  exists n, path = ["sv"; n] /\ In n ["custom"; "error"; "messages"; "msg"; "override_entry_point"; "attr"; "msg_attr"; "payload"; "data"; "features"].
-Proof. exact classify_names. Qed.
-
 (* non-vacuity *)
 Example c13_translated_example :
   length fold_fns = 5 /\
@@ -65,5 +53,3 @@ Print Assumptions c13_translated_items_keep_foreign_attributes.
 Print Assumptions c13_translated_methods.
 Print Assumptions c13_translated_parameters.
 Print Assumptions c13_translated_remove_input_attr.
-Print Assumptions c13_translated_framework_attributes.
-Print Assumptions c13_translated_framework_attribute_names.
